@@ -1,22 +1,23 @@
 #pragma once
 #include <stddef.h>
 #include <stdint.h>
+#ifndef GEOMS_INC
+#define GEOMS_INC "geoms_default.inc"
+#endif
 enum { MT_SIM = 0, MT_TICKET = 1, MT_SIMPLE = 2, MT_N = 3 };
-enum { PC_A0 = 0, PC_A1, PC_A2, PC_U0, PC_U1, PC_U2, PC_A3, PC_U3, PC_A4, PC_U4, PC_A5, PC_U5, PC_N };
+// policy configurations: 0 = A0 (aligned, all defaults), 1 = U0 (unaligned, poison, all defaults), then the GEOM list
+enum { PC_A0 = 0, PC_U0 = 1,
+#define GEOM(tag, al, po, pg, sl, sb, nb) PC_##tag,
+#include GEOMS_INC
+#undef GEOM
+	PC_N };
 struct PolicyInfo { const char *name; bool aligned, poison; size_t pagesize, slabsize, sb_size; int num_buckets; };
 static const PolicyInfo policy_info[PC_N] = {
-	{"A0:aligned,defaults(page 0x1000,slab 0x40000,sb 0x40000,13 buckets)", true, false, 0x1000, 0x40000, 0x40000, 13},
-	{"A1:aligned,poison,page 0x1000,slab 0x4000,sb 0x10000,8 buckets", true, true, 0x1000, 0x4000, 0x10000, 8},
-	{"A2:aligned,page 0x1000,slab 0x2000,sb 0x2000,6 buckets", true, false, 0x1000, 0x2000, 0x2000, 6},
-	{"U0:unaligned,poison,defaults", false, true, 0x1000, 0x40000, 0x40000, 13},
-	{"U1:unaligned,page 0x1000,slab 0x4000,sb 0x4000,8 buckets", false, false, 0x1000, 0x4000, 0x4000, 8},
-	{"U2:unaligned,poison,page 0x4000,slab 0x8000,sb 0x10000,7 buckets", false, true, 0x4000, 0x8000, 0x10000, 7},
-	{"A3:aligned,poison,page 0x1000,slab 0x7000 (not a power of two),sb 0x8000,11 buckets", true, true, 0x1000, 0x7000, 0x8000, 11},
-	{"U3:unaligned,page 0x1000,slab 0x7000 (not a power of two),sb 0x8000,11 buckets", false, false, 0x1000, 0x7000, 0x8000, 11},
-	{"A4:aligned,poison,page=slab=sb=0x4000,8 buckets", true, true, 0x4000, 0x4000, 0x4000, 8},
-	{"U4:unaligned,page=slab=sb=0x2000,6 buckets", false, false, 0x2000, 0x2000, 0x2000, 6},
-	{"A5:aligned,page=slab=sb=0x1000 (one-page slabs),5 buckets", true, false, 0x1000, 0x1000, 0x1000, 5},
-	{"U5:unaligned,poison,page 0x1000,slab 0x3000 (not a power of two),sb 0x10000,9 buckets", false, true, 0x1000, 0x3000, 0x10000, 9},
+	{"A0", true, false, 0x1000, 0x40000, 0x40000, 13},
+	{"U0", false, true, 0x1000, 0x40000, 0x40000, 13},
+#define GEOM(tag, al, po, pg, sl, sb, nb) {#tag, al != 0, po != 0, pg, sl, sb, nb},
+#include GEOMS_INC
+#undef GEOM
 };
 struct SlabApi {
 	size_t (*pool_size)(int pc);
